@@ -1012,7 +1012,7 @@ play call with spf>0, non-silent precise stream classes, transposition frame cou
         }
     }
     if let Some((c, d)) = pending {
-        if rep.violations.iter().any(|v| v.kind == Kind::SpecViolated) {
+        if rep.violations.iter().any(|v| v.kind == Kind::SpecViolated && v.key.starts_with("C20/play.")) {
             rep.notes.push(format!(
                 "code/model mismatches on inputs the spec does not decide ({}) are attributed to the spec violation(s) reported",
                 d.key
